@@ -612,6 +612,8 @@ pub fn format_code(
 		}
 		ConvTypeV::Shorter => {
 			let value = f64::from_untyped(value.clone())?;
+			// As in C and Python, a precision of zero is treated as one for %g
+			let fpprec = fpprec.max(1);
 			let exponent = if value == 0.0 {
 				0.0
 			} else {
